@@ -863,7 +863,7 @@ pub fn wf_full_upload(rng: &mut Rng, dir: &PayloadDir, block: u32) -> Vec<Reply>
 pub fn run_c05(ctx: &Ctx) -> i32 {
     let mut report = ctx.report("C05", "exploration");
     let depth = ctx.by(5usize, 7usize);
-    report.rule = format!("18 streams (17 Sequence impls + feig WriteFile) x every reply script of the form non-final^d final with d < {depth} over the stream's reply alphabet (single-reply streams: every variant), each letter instantiated with canonical values of the variant's type (several per letter, reference-encoded), x junk behind the final packet {{none, a valid packet, random bytes}} x chunking {{whole, byte-wise with a Pending wake-up between chunks}} x partial writes, and once more with every terminal packet (acknowledgement included) in the extended length form CC II FF lo hi; plus random scripts to depth 40; for WriteFile additionally complete uploads (every announced byte of 1-3 small firmware/application files fetched block by block, sequentially or interleaved, optionally probing the end of file) followed by the completion; and for every stream with print lines in its reply set a print line of 65535 / 65534 / ... / 65530 / 32768 / 256 / 255 body bytes in front of the final packet (whole and cut inside its header), and for one stream a print line of every body length 1..65535 (quick: every length below 2048 and above 65000 and every multiple of a round block size with its neighbours). The terminal releases reply i+1 only after reply i was answered (gate). Oracle: the abstract event log must equal [W(command), Read(ack+r1), W(answer1), Yield(r1), Read(r2), W(answer2), Yield(r2) ... End] and the stream cursor must sit exactly behind the final packet. Non-trivial = script with at least one reply; distinct by hash of (stream, script bytes, junk, chunking).");
+    report.rule = format!("18 streams (17 Sequence impls + feig WriteFile) x every reply script of the form non-final^d final with d < {depth} over the stream's reply alphabet (single-reply streams: every variant), each letter instantiated with canonical values of the variant's type (several per letter, reference-encoded), x junk behind the final packet {{none, a valid packet, random bytes}} x chunking {{whole, byte-wise with a Pending wake-up between chunks}} x partial writes, and once more with every terminal packet (acknowledgement included) in the extended length form CC II FF lo hi; plus random scripts to depth 40; for WriteFile additionally complete uploads (every announced byte of 1-3 small firmware/application files fetched block by block, sequentially or interleaved, optionally probing the end of file) followed by the completion, and one upload of a single 43 MB file with requests around byte 42 949 672, in the middle and at the end; and for every stream with print lines in its reply set a print line of 65535 / 65534 / ... / 65530 / 32768 / 256 / 255 body bytes in front of the final packet (whole and cut inside its header), and for one stream a print line of every body length 1..65535 (quick: every length below 2048 and above 65000 and every multiple of a round block size with its neighbours). The terminal releases reply i+1 only after reply i was answered (gate). Oracle: the abstract event log must equal [W(command), Read(ack+r1), W(answer1), Yield(r1), Read(r2), W(answer2), Yield(r2) ... End] and the stream cursor must sit exactly behind the final packet. Non-trivial = script with at least one reply; distinct by hash of (stream, script bytes, junk, chunking).");
     report.exhaustive = Some(true);
     report.assumptions = vec!["reply sets and final packets per stream: DESIGN Appendix B (refcodec::tables), written from the specification".into(), "commands are obtained by decoding reference encodings (C03 covers that bridge)".into()];
     let schema = refcodec::zvt_schema();
@@ -873,6 +873,12 @@ pub fn run_c05(ctx: &Ctx) -> i32 {
     let n_random = ctx.by(60usize, 3000usize);
     let n_uploads = ctx.by(120usize, 4000usize);
     sharded(&mut report, threads, |shard, r| {
+        if shard == 1 % threads {
+            // one upload of a single file beyond 41 MiB: requests around byte 42 949 672 (bytes x 100 leaves 32 bits), in
+            // the middle and at the end - each answered once, in order, before the next read
+            let mut brng = Rng::derive(seed, 0xC05_B16);
+            crate::c11::big_file_upload(r, &mut brng, shard, &schema, &pools, "C05");
+        }
         let mut rng = Rng::derive(seed, 0xC05 + shard as u64);
         let mut work = 0usize;
         for sd in STREAMS {
